@@ -108,6 +108,32 @@ def check_sorted_invariant(ctx, rule: str, cls: str = "AbsoluteSequence", method
                   message=f"`{short(bad[0][1], 70) if bad else ''}` can reach an exit without re-sorting: the absolute list is no longer ordered by "
                           f"time, and the conversion to the relative view (which walks the list in order) yields wrong waits",
                   file=fi.file, node=bad[0][1] if bad else fi.node)
+    # the routines the obligations above are discharged by really sort, on every call: no early return, no condition (a cached
+    # "already sorted" flag cannot see in-place edits of message times)
+    from ..astutil import path_conditions, early_exits_before
+    for name in ("sort", "normalise_absolute"):
+        fi = ci.methods.get(name)
+        if fi is None:
+            continue
+        ctx.analysed(fi)
+        sorts = []
+        for x in _ast.walk(fi.node):
+            if isinstance(x, _ast.Call):
+                recv, m = call_method(x)
+                if attr_chain(recv) == ["self", "_messages"] and m == "sort":
+                    sorts.append(x)
+                elif isinstance(recv, _ast.Name) and recv.id == "self" and m in ("sort", "normalise_absolute") and m != name:
+                    sorts.append(x)
+            elif isinstance(x, _ast.Assign) and any(attr_chain(t) == ["self", "_messages"] for t in x.targets) and isinstance(x.value, _ast.Call) \
+                    and isinstance(x.value.func, _ast.Name) and x.value.func.id == "sorted":
+                sorts.append(x)
+        ok = bool(sorts) and any(not path_conditions(x) and not early_exits_before(fi.node, x) for x in sorts)
+        ctx.check(ok, rule, f"{fi.qualname}: sorts the event list on every call", function=fi.qualname,
+                  construct=f"{fi.qualname} can return without sorting the event list",
+                  message=f"sort sites {[short(x, 50) for x in sorts]}: skipped under a condition or after an early return -- times edited in place "
+                          f"(cutoff, quantise_note_lengths, an iteration over messages_abs) leave the list out of order", file=fi.file,
+                  node=sorts[0] if sorts else fi.node)
+        n += 1
     return n
 
 
